@@ -355,6 +355,11 @@ func atOdds(jsonType string, ndims int, family string) bool {
 // It returns nil when nothing is provably inconsistent (which includes every
 // shape it does not understand).
 func analyse(schema interface{}) *finding {
+	if hasCaseVariantKey(schema) {
+		// Go's JSON decoding matches object keys case-insensitively ("INDEX" fills index); whether such a
+		// key counts as present is an open reading, so these schemas are not analysed
+		return nil
+	}
 	m := asMap(schema)
 	det := asMap(m["details"])
 	ety, ok := det["type"].(string)
@@ -393,6 +398,33 @@ func analyse(schema interface{}) *finding {
 		}
 	}
 	return walk(m, ety, "$")
+}
+
+var readKeys = []string{"type", "oneOf", "details", "properties", "items", "description", "internalType", "indexed", "index"}
+
+// hasCaseVariantKey reports whether any object in the tree has a key that equals one of the keys the
+// converter reads only under case folding (strings.EqualFold, the rule encoding/json applies).
+func hasCaseVariantKey(v interface{}) bool {
+	switch vt := v.(type) {
+	case map[string]interface{}:
+		for k, child := range vt {
+			for _, rk := range readKeys {
+				if k != rk && strings.EqualFold(k, rk) {
+					return true
+				}
+			}
+			if hasCaseVariantKey(child) {
+				return true
+			}
+		}
+	case []interface{}:
+		for _, child := range vt {
+			if hasCaseVariantKey(child) {
+				return true
+			}
+		}
+	}
+	return false
 }
 
 func walk(m map[string]interface{}, ety string, path string) *finding {
